@@ -1,6 +1,6 @@
 """C16 — affine functions obey their algebra and named constructors their names (exact arithmetic)."""
 from ..mir import Callee, Resolver, fmt, literals, walk, strip_sites as s
-from ..kernel import Kernel, Poly, Block, Aff, symaff, OutOfFragment, kernel_return, index_writes
+from ..kernel import Kernel, Poly, Block, Aff, symaff, OutOfFragment, kernel_return, kernel_return_soft, index_writes
 from . import prune
 from .prune import is_call
 
@@ -128,7 +128,7 @@ def convert_to(ctx, F):
 def rows(ctx, F):
     b = ctx.body('C16.R1', 'AffFuncBase::row')
     if b is not None:
-        R, ret = kernel_return(F, b)
+        R, ret = kernel_return_soft(F, b)
         ok = is_call(ret, 'AffFuncBase::from_mats')
         if ok:
             m, bi = ret[2]
@@ -140,7 +140,7 @@ def rows(ctx, F):
         (ctx.ok if ok else ctx.bad)('C16.R1', 'AffFuncBase::row', 'row r of the matrix with element r of the bias' if ok else 'row() pairs a matrix row with a different bias element: %s' % fmt(ret)[:200], b.span)
     b = ctx.body('C16.R1', 'AffFuncBase::row_iter')
     if b is not None:
-        R, ret = kernel_return(F, b)
+        R, ret = kernel_return_soft(F, b)
         ok = is_call(ret, 'Iterator::map') and is_call(ret[2][0], 'Iterator::zip') and \
             ret[2][0][2][0] == ('call', 'ArrayBase::outer_iter', (('field', ('param', 'self'), 'mat'),), ret[2][0][2][0][3]) and \
             ret[2][0][2][1][:3] == ('call', 'ArrayBase::outer_iter', (('field', ('param', 'self'), 'bias'),))
@@ -152,10 +152,15 @@ def rows(ctx, F):
         (ctx.ok if ok else ctx.bad)('C16.R1', 'AffFuncBase::row_iter', 'zips matrix rows with bias elements in order; item = from_mats(row, bias)' if ok else 'row_iter does not pair row i with bias i', b.span)
     b = ctx.body('C16.R1', 'AffFuncBase::remove_zero_columns')
     if b is not None:
-        R, ret = kernel_return(F, b)
+        R, ret = kernel_return_soft(F, b)
         ok = is_call(ret, 'AffFuncBase::from_mats') and ret[2][1] == ('field', ('param', 'self'), 'bias') and \
             any(is_call(x, 'ArrayBase::axis_iter') and x[2][0] == ('field', ('param', 'self'), 'mat') and x[2][1][2] == (('const', 1),) for x in walk(ret[2][0])) and \
             is_call(ret[2][0], 'stack') and ret[2][0][2][0][2] == (('const', 1),)
+        if not ok and is_call(ret, 'AffFuncBase::from_mats') and ret[2][1] == ('field', ('param', 'self'), 'bias') and is_call(ret[2][0], 'stack') and ret[2][0][2][0][2] == (('const', 1),):
+            # the kept columns are pushed in a loop over the columns of self.mat instead of being filtered by an iterator chain
+            els = prune.vec_elements(F, b, R, ret[2][0][2][1]) or []
+            ok = bool(els) and all(is_call(e, 'Iterator::next') and is_call(e[2][0], 'ArrayBase::axis_iter') and e[2][0][2][0] == ('field', ('param', 'self'), 'mat')
+                                   and e[2][0][2][1][2] == (('const', 1),) for e in els)
         (ctx.ok if ok else ctx.bad)('C16.R1', 'AffFuncBase::remove_zero_columns', 'keeps a subsequence of the columns, bias untouched' if ok else 'remove_zero_columns changes the bias or does not re-stack columns', b.span)
 
 
@@ -166,7 +171,7 @@ def constructors(ctx, F):
     zero = ('call', 'Zero::zero', ())
 
     def form(b):
-        R, ret = kernel_return(F, b)
+        R, ret = kernel_return_soft(F, b)
         if is_call(ret, 'AffFuncBase::scaling'):
             # uniform_scaling delegates
             return R, ret, None
@@ -291,7 +296,7 @@ def constructors(ctx, F):
     # uniform_scaling(dim, s) = scaling(from_elem(dim, s))
     b = ctx.body('C16.R2', 'AffFuncBase::uniform_scaling')
     if b is not None:
-        R, ret = kernel_return(F, b)
+        R, ret = kernel_return_soft(F, b)
         ok = is_call(ret, 'AffFuncBase::scaling') and is_call(ret[2][0], 'ArrayBase::from_elem') and ret[2][0][2] == (('param', 'dim'), ('param', 'scalar'))
         (ctx.ok if ok else ctx.bad)('C16.R2', 'AffFuncBase::uniform_scaling', 'scaling(from_elem(dim, scalar))' if ok else 'uniform_scaling is not scaling by the constant vector: %s' % fmt(ret), b.span)
 
@@ -301,7 +306,7 @@ def slice_ctor(ctx, F):
     b = ctx.body('C16.R2', 'AffFuncBase::slice')
     if b is None:
         return
-    R, ret = kernel_return(F, b)
+    R, ret = kernel_return_soft(F, b)
     ok = is_call(ret, 'AffFuncBase::from_mats') and is_call(ret[2][0], 'ArrayBase::from_diag') and is_call(ret[2][0][2][0], 'ArrayBase::map') and is_call(ret[2][1], 'ArrayBase::map') \
         and ret[2][0][2][0][2][0] == ('param', 'reference_point') and ret[2][1][2][0] == ('param', 'reference_point')
     tables = []
